@@ -30,6 +30,8 @@ SOLVER_RULE = ("solver runs with a recording provider: (0) a corpus of minimised
                "(0') deep / family scope — 5-7 packages, the versions of a package mostly share their dependencies and the bottoms cannot be "
                "satisfied, some packages pin themselves: several conflicts per run, learned incompatibilities reused (shared nodes); "
                "(0'') wide scope — a conflict-rich core plus 33-38 filler packages decided first: back-jumps over 35 decision levels; "
+               "(0+) neighbourhoods — random small edits of every corpus registry; window scope — 4-6 packages with 3-9 versions, dependencies on "
+               "version windows, unavailable versions: several picks per decision level; "
                "(a) tiny scope — 2 packages x 2 versions, every slot one of 15 options (absent, "
                "unavailable, no deps, one dep on a target in {0,1,unknown 2} with set in {empty, full, {1}, {2}}; so self-dependencies, cycles, "
                "unknown packages occur), sampled registries (quick) / all 50625 (thorough), both roots, ALL scripts of the family "
